@@ -20,7 +20,7 @@ MANIFEST = {
     "technique": "static analysis: field-footprint extraction from MIR of hand-written Eq/Hash/PartialOrd/Ord impls and cross-checking of sibling impls",
     "level": "Cross-checks the four comparison impls of every value type against each other on the type-checked program: equal-implies-same-hash, "
     "cmp-Equal-iff-eq and partial-agrees-with-total are decided as agreement of the field footprints and per-field operations of sibling impls "
-    "(all 9 types, exhaustively), which is where these laws actually break (a field hashed but not compared, -0.0 vs to_bits, two different "
+    "(all 9 types, exhaustively), which is where these laws actually break (a field hashed but not compared, an accessor consulted by hash but not by eq, -0.0 vs to_bits, two different "
     "lexicographic keys). Tests compare a handful of value pairs.",
     "note": "Decides structural consistency, not the laws over all values: transitivity etc. follow only under the assumption that the field-level "
     "operations (std, chrono) are lawful. NaN excluded by the statement.",
